@@ -25,7 +25,7 @@ reg('C05', 'fault_enumeration',
     'Every residue of bytes already delivered (quick: 100, thorough: all 1012) x three chunkings x every next read size '
     '1..2024 on 1-, 2-, 3- and 5-block files (one with a short last chunk), read() with no size at every residue, seeded '
     'long sequences (size 0 and reads up to 2 MiB included), files of 70, 200 and 2 300 blocks with unsized reads on them; unblock_1014 is fed every truncation length of 1..4-block files and every wrong value of every trailer '
-    'byte, on position-coded payloads and on payloads holding whole blocks of the fill byte (the EBCDIC blank).'
+    'byte, on position-coded payloads and on payloads holding whole blocks of the fill byte (the EBCDIC blank), and on payloads holding blocks of ASCII white space.'
     '  Each returned slice is compared with the reference payload stream. Held on the executions produced.',
     'Trusts vmon/ref/blocking.py and io.BytesIO. Read sizes 0/negative are outside the statement; read(None) judged only if it returns.')
 
@@ -34,7 +34,7 @@ reg('C03', 'exploration',
     'Every record length 1..6000 (single-record files, blocked and unblocked, class and convenience APIs) is enumerated in '
     'both tiers; multi-record lists put a length prefix or record end on every offset within +-4 of a 1012-byte payload '
     'boundary; content classes include 0x00/0x40 runs. File bytes are compared with ref.vbs / the blocked payload model and the '
-    'records read back (from the real and from the reference file, five writer idioms incl. close inside a with block; the reader walked in eight styles incl. next-then-for and for/break/for) with the input; the live MAX_VBS_RECORD_LENGTH is also set to 3 000 / 6 500 / 10 000 at run time with records at the new maximum. Held on the executions produced.',
+    'records read back (from the real and from the reference file, five writer idioms incl. close inside a with block; unblocked convenience reads leave the blocked argument out, also on fill-valued files that look blocked; the reader walked in eight styles incl. next-then-for and for/break/for) with the input; the live MAX_VBS_RECORD_LENGTH is also set to 3 000 / 6 500 / 10 000 at run time with records at the new maximum. Held on the executions produced.',
     'Trusts vmon/ref/blocking.py, io.BytesIO. Records are non-empty and at most 6000 bytes.')
 
 reg('C09', 'fault_enumeration',
@@ -68,7 +68,7 @@ reg('C13', 'exploration',
     'PIN lengths 4..12 x PAN lengths 13..19 x seven class flavours are enumerated with seeded digits (20 / 150 repetitions, each '
     'digit value forced at each position), supplied fills {1, 2^63, 2^64-1, seeded} and none, TDES keys of 16/24 and AES keys '
     'of 16/24/32 bytes. Clear block, PIN recovered from clear bytes, ciphertext and PIN recovered from ciphertext are each '
-    'compared with the reference. Freshness: 2 000 / 20 000 format-4 fills never repeat and cover all 64 bit positions; blocks built in four forked children share no fill.',
+    'compared with the reference; every format-0 case is followed, in the same process, by the same PIN on six neighbouring cards (one digit changed) and a neighbouring PIN on the same card. Freshness: 2 000 / 20 000 format-4 fills never repeat and cover all 64 bit positions; blocks built in four forked children share no fill.',
     'Trusts vmon/ref/crypto.py (FIPS known answers; cross-checked against the cryptography package at setup) and vmon/ref/cards.py. '
     'A finite run cannot decide randomness, only non-repetition and width. Fill 0 is outside the quantifier.')
 
@@ -77,7 +77,7 @@ reg('C14', 'exploration',
     'PIN 4..12 x PAN 13..19 x key lengths 8/16/24 x key index 0..9 through calculate_pvv and both mix-in routes; cases built '
     'backwards from a chosen ciphertext so that the second decimalisation scan supplies exactly 0,1,2,3 and 4 digits (a run '
     'missing any d is inconclusive); component lists of 2..5 parts of 8, 16 and 24 bytes with every permutation, a duplicated '
-    'component, and the same components given once more after an earlier call in the same process; KCV lengths 1..16; encrypted zone keys under 16/24-byte master keys.',
+    'component, and the same components given once more after an earlier call in the same process; KCV lengths 1..16; six to_pvv calls on one pin block object with other card / index / key; encrypted zone keys under 16/24-byte master keys.',
     'Trusts vmon/ref/crypto.py and vmon/ref/cards.py; cryptography is used only to search for plaintexts, never to judge.')
 
 reg('C01', 'exploration',
@@ -95,7 +95,7 @@ reg('C02', 'exploration',
     'C01 workload is reused and widened on the encode side (short fixed text, numbers as strings, decimals in exponent form, ISO date strings, empty/None '
     'values). Decode is judged on bytes produced by the reference encoder so a symmetric error cannot cancel. Over-long '
     'variable values (100..999 / 1000..5000 characters, text and bytes) must be refused while the longest representable '
-    'value still encodes. Every decoded dict without PDS data is fed back into dumps and must give the same wire image; dumps is also called from 6 threads at once (1 microsecond switch interval, inconclusive unless the calls alternated) and every result compared with the reference image. Held on the executions produced.',
+    'value still encodes. Text with a character the chosen encoding cannot express must be refused as well (every text element x five codec/character pairs). Every decoded dict without PDS data is fed back into dumps and must give the same wire image; dumps is also called from 6 threads at once (1 microsecond switch interval, inconclusive unless the calls alternated) and every result compared with the reference image. Held on the executions produced.',
     'Trusts vmon/ref/codec.py (validated at setup against the wire images pinned by the repository tests), python codecs, re, strptime.')
 
 reg('C12', 'exploration',
@@ -112,7 +112,7 @@ reg('C16', 'exploration',
     'seeded Latin-1 ones. Decode: the processor is placed on each variable-length (and each wide fixed-width) text element of the packaged configuration in '
     'turn (and on generated configurations), latin_1 / cp500 / cp037, through loads, IpmReader and blocked IpmReader; the '
     'element must come back masked / as its nine-character prefix and the clear number (whole, without check digit, middle '
-    'digits; as text, bytes or hex) must occur in no value of the returned dict; card numbers with separators, letters, line ends and other control characters (20 special characters x 8 positions x every length for mask()), and masking switched on in a configuration object that was already used for a decode, are part of every run. Held on the executions produced.',
+    'digits; as text, bytes or hex) must occur in no value of the returned dict; card numbers with separators, letters, line ends and other control characters (20 special characters x 8 positions x every length for mask()), and masking switched on in a configuration object that was already used for a decode, and the masked element declared as a number, are part of every run. Held on the executions produced.',
     'Trusts vmon/ref/codec.py encoder and vmon/ref/blocking.py to build the inputs. Other elements are letters-only so a hit is a leak.')
 
 reg('C17', 'exploration',
@@ -140,7 +140,7 @@ reg('C08', 'fault_enumeration',
     'runtime monitor: accept/reject decision and returned dict of real loads bracketed by two independent reference decoders (strict subset, lenient superset) over enumerated neighbours of valid messages and constructed overlaps',
     'For 160 (quick) / 3 000 (thorough) valid bases (packaged, variant and generated configurations; latin_1, cp500, cp864, '
     'ascii; both bitmaps): every length-prefix digit replaced by sign/space/underscore/letter/every digit/non-ASCII digits, '
-    'every prefix rewritten (negative spellings, 0, one short, one over, message length, maximum), hex bitmaps respelled (0x, signs, blanks, underscores), utf-8 among the codecs, 25 fresh valid messages per base, each of the 128 bitmap bits '
+    'every prefix rewritten (negative spellings, 0, one short, one over, message length, maximum), hex bitmaps respelled (0x, signs, blanks, underscores, whole hex pairs blanked), utf-8 among the codecs, 25 fresh valid messages per base, each of the 128 bitmap bits '
     'flipped (and bit 1 cleared together with each bit above 64, with and without the upper elements\' bytes), every variable element emptied (must still be accepted), trims/extensions, multi-point mutation; plus thousands of '
     'constructed messages that a negative-length-tolerant decoder would tile exactly (negative prefixes spelled with and without white space around the sign). strict accepts => must accept with that '
     'dict; lenient rejects => must reject; in between, accepted readings must equal the lenient element values.',
@@ -148,7 +148,7 @@ reg('C08', 'fault_enumeration',
 
 reg('C10', 'fault_enumeration',
     'runtime monitor: real IpmReader and the extraction tool run on files whose k-th record carries an injected fault; records delivered, exception attributes and the operator line observed for every k',
-    'n = 1..10 (quick) / 1..12, 17, 25, 40 (thorough) records x every position k x eight ways of walking the reader x nine fault kinds (truncated record, oversized '
+    'n = 1..10 (quick) / 1..12, 17, 25, 40 (thorough) records x every position k x eight ways of walking the reader x ten fault kinds (a bad decimal value under a caller-supplied configuration, truncated record, oversized '
     'length, undecodable MTI (a quarter of the lists with records over 2 KB; truncation points: anywhere, straight after the length prefix, on a fill byte of a block, after two fill-valued data bytes; the context of a truncated record must be all its surviving bytes), unknown bitmap bit, bad field length, bad typed value, bad PDS content, bad ICC content, trailing '
     'bytes) x {VBS, 1014} x {latin_1, cp500}: exactly k-1 records equal to the strict reference decode, MciIpmDataError with '
     'record_number == k and binary_context_data == prefix + raw bytes of record k, and "Error detected in record k" printed by '
